@@ -120,6 +120,43 @@ class WindowProbe(RunningWindowDebiaser):
         return cm_future + (obs.mean() - cm_hist.mean())
 
 
+@attrs.define(slots=False)
+class CountingProbe(Debiaser):
+    """a user-defined debiaser that is NOT pure: it counts its calls and lets the count leak into the result.  Ties the
+    instance-state / chunk model (Model.Grid.applySerialSt / applyParallelSt) to what the real loop and the real pool do"""
+
+    calls: int = attrs.field(default=0)
+
+    @classmethod
+    def from_variable(cls, variable, **kwargs):
+        return cls(**kwargs)
+
+    def apply_location(self, obs, cm_hist, cm_future):
+        s = self.calls
+        self.calls = s + 1  # also when the call raises below
+        return encode(cm_future, obs, cm_hist, shift=s)
+
+
+def real_chunks(k, n):
+    """lengths of the task chunks the real pool cuts n tasks into"""
+    from multiprocessing.pool import Pool
+
+    return [len(x[1]) for x in Pool._get_tasks(abs, range(n), k)]
+
+
+def real_default_chunksizes(p, ns):
+    """the chunk size a real Pool(p) chooses for n tasks (read off the MapResult it creates)"""
+    from multiprocessing import Pool
+
+    out = {}
+    with Pool(processes=p) as pool:
+        for n in ns:
+            r = pool.map_async(abs, range(n))
+            out[n] = r._chunksize
+            r.get()
+    return out
+
+
 def make(kind):
     return GridProbe() if kind == "deb" else GridProbeDC(delta_type="additive")
 
